@@ -78,7 +78,7 @@ var c20Templates = []struct{ name, code string }{
 	{"delete-flag", "gq = 1; func() { delete(\"gq\", %s) }(); r = (gq ?? \"gone\")"},
 	{"make-type", "r = \"ok\"; try { make(type TQ, %s); r = [make(TQ)] } catch e { r = \"E\" }"},
 	{"defer-arg", "r = 0; func() { defer func(a) { r = [a] }(%s) }(); r"}, {"defer-go-arg", "r = 0; func() { defer probe(%s) }(); r"},
-	{"var", "var q = %s; r = q"}, {"multi", "q, w = (%s); r = [q, w ?? \"undef\"]"},
+	{"var", "var q = %s; r = q"}, {"multi", "q, w = (true ? %s : nil); r = [q, w ?? \"undef\"]"},
 	{"return", "r = func() { return %s, 1 }()"}, {"arg-go", "r = probe(%s)"}, {"arg2", "r = probe2(1, %s)"},
 	{"var-go", "r = hvar(1, %s)"},
 	{"lt-big", "r = (%s < 9007199254740994) ?? \"E\""}, {"gt-big", "r = (%s > 9007199254740992) ?? \"E\""},
